@@ -34,6 +34,7 @@ def new_sim(rng):
 
 
 PROG = None
+T_FIRST = [None]
 
 
 def note(x):
@@ -101,6 +102,9 @@ def _do_op(sim, rng, log):
             elif r < 0.93:
                 sim.N_active = rng.choice([-1, max(1, sim.N - 1)]) if sim.N_var == 0 else sim.N_active
                 log.append(["n_active", sim.N_active])
+            elif r < 0.96 and T_FIRST[0] is not None:
+                sim.t = T_FIRST[0]              # the clock set back to exactly the time of the first snapshot (e.g. after integrating there and back)
+                log.append(["time_of_first"])
             else:
                 sim.t += 0.0
                 log.append(["noop"])
@@ -138,6 +142,7 @@ def history(rng, fn, nsnap, reload_all):
     oplog = []
     tlist = []
     clist = []
+    T_FIRST[0] = None
     for k in range(nsnap):
         # (operations also before the first snapshot: the first snapshot should already hold integrator arrays that can
         #  later shrink, grow or disappear)
@@ -160,6 +165,8 @@ def history(rng, fn, nsnap, reload_all):
                 break
         ghosts.append(recs(lf, intern))
         tlist.append(t_live)
+        if k == 0:
+            T_FIRST[0] = t_live
         clist.append(counts(sim))
         buf = open(fn, "rb").read()
         blobs = P.parse_archive(buf)
@@ -179,7 +186,7 @@ def history(rng, fn, nsnap, reload_all):
                 ev["nblobs"] = len(sa)
                 # count, the time of the loaded snapshot, and the archive's index of per-snapshot times
                 ev["t_ok"] = (len(sa) == k + 1 and sa[k].t == t_live and all(sa.t[j] == tlist[j] for j in range(len(sa)))
-                              and sa.tmin == min(tlist) and sa.tmax == max(tlist))
+                              and sa.tmin == tlist[0] and sa.tmax == tlist[-1])       # (tmin / tmax are the first / last snapshot's times)
                 which = range(k + 1) if reload_all else sorted({k, rng.randrange(k + 1)})
                 for j in which:
                     s2 = sa[j]
